@@ -260,7 +260,7 @@ replace verifsim => %s
 	}
 	writeJSONFile(filepath.Join(dir, "batch.json"), progs)
 	b.bin = filepath.Join(dir, "worker.test")
-	args := []string{"test", "-c", "-tags", "verif", "-o", b.bin}
+	args := []string{"test", "-c", "-vet=off", "-tags", "verif", "-o", b.bin}
 	if race {
 		args = append(args, "-race")
 	}
